@@ -309,9 +309,10 @@ ssize_t __wrap_send(int fd, const void *buf, size_t len, int flags)
         const char *t = f->tx[f->tx_head % 256];
         f->tx_head++;
         if (!strcmp(t, "again")) { errno = EAGAIN; return -1; }
+        if (!strcmp(t, "intr")) { errno = EINTR; return -1; }      /* interrupted before any byte: recoverable */
         if (!strcmp(t, "err")) { errno = EPIPE; f->last_errno = EPIPE; return -1; }
         if (t[0] == 'k') { acc = (size_t)atol(t + 1); if (acc > len) acc = len; }
-        if (acc == 0) { errno = EAGAIN; return -1; }
+        if (acc == 0 && len > 0) { errno = EAGAIN; return -1; }   /* (a zero-length write is accepted, as send(2) does) */
     }
     if (fd_compressed(fd)) {
         /* log what the server obtains by inflating the accepted bytes */
@@ -331,7 +332,7 @@ ssize_t __wrap_send(int fd, const void *buf, size_t len, int flags)
         return (ssize_t)acc;
     }
     if (f->wcap - f->wlen < acc) { f->wcap = (f->wlen + acc) * 2 + 64; f->wbuf = realloc(f->wbuf, f->wcap); }
-    memcpy(f->wbuf + f->wlen, buf, acc);
+    if (acc) memcpy(f->wbuf + f->wlen, buf, acc);
     f->wlen += acc;
     return (ssize_t)acc;
 }
